@@ -58,11 +58,15 @@ inductive Raised
   | taskTimeNone         -- TaskManager.install_task: "task time is None"
   | intervalUnset        -- RecurringTask.install_task: "interval unset, ..."
   | intervalNotPositive  -- RecurringTask.install_task: "interval must be greater than zero"
+  | noTaskManager        -- _Task.install_task(delta=…) before a manager exists: "no task manager"
+  | notInList            -- suspend_task before a manager exists: list.remove → ValueError
+  | noManagerAttr        -- resume_task before a manager exists: None.resume_task → AttributeError
 deriving DecidableEq, Repr, Inhabited
 
 def Raised.name : Raised → String
   | .scheduleMissing => "scheduleMissing" | .taskTimeNone => "taskTimeNone"
   | .intervalUnset => "intervalUnset" | .intervalNotPositive => "intervalNotPositive"
+  | .noTaskManager => "noTaskManager" | .notInList => "notInList" | .noManagerAttr => "noManagerAttr"
 
 /-- point update of a per-task attribute -/
 def upd {α} (f : Nat → α) (k : Nat) (v : α) : Nat → α := fun x => if x = k then v else f x
@@ -435,6 +439,76 @@ def World.api (w : World) (r : TM × Option Raised) : World :=
   match r.2 with
   | some k => w.emit (.raised k)
   | none => w
+
+omit [Pump] in
+/-! ## before the manager exists
+
+  Tasks may be installed before any `TaskManager` has been created (at import
+  time, say): `task._task_manager` is `None` and `_Task.install_task` only sets
+  `taskTime` and APPENDS the task to `task._unscheduled_tasks` — once per call,
+  so a task installed twice is listed twice; `suspend_task` removes the FIRST
+  occurrence (`list.remove`, ValueError if there is none).  `TaskManager.__init__`
+  then replays the list in order with `task.install_task()`, i.e. at each
+  task's CURRENT `taskTime`: a task listed twice is installed at its last time
+  and re-installed (moved behind everything replayed in between) when its second
+  entry comes up — which is what makes a pre-manager re-install behave like a
+  re-install.  (One suspend of a task listed twice leaves the other entry
+  behind: the task is scheduled when the manager appears.  Transcribed as it is;
+  see notes/C14.md.)  The list is never emptied; nothing reads it again. -/
+
+omit [Pump] in
+/-- a process without a task manager: the task attributes are those of `w.tm`
+    (whose heap is empty), `core.deferredFns` is `w.queue` -/
+structure Pre where
+  w : World := {}
+  unsched : List Nat := []      -- task._unscheduled_tasks
+
+inductive PreOp
+  | installAt (tid t : Nat)                        -- task.install_task(when=t)
+  | installAfter (tid d : Nat)                     -- task.install_task(delta=d): RuntimeError
+  | installBare (tid : Nat)                        -- task.install_task()
+  | installRec (tid : Nat) (iv off : Option Nat)   -- recurring.install_task(interval, offset)
+  | suspend (tid : Nat)                            -- task.suspend_task()
+  | resume (tid : Nat)                             -- task.resume_task(): AttributeError
+  | defer (f : Fn)                                 -- core.deferred(f): queued, no trigger to set
+  | tick (d : Nat)
+
+omit [Pump] in
+def Pre.raise (p : Pre) (k : Raised) : Pre := { p with w := p.w.emit (.raised k) }
+
+omit [Pump] in
+def Pre.step (p : Pre) : PreOp → Pre
+  | .installAt tid t =>
+    { p with w := { p.w with tm := { p.w.tm with ttime := upd p.w.tm.ttime tid (some t) } },
+             unsched := p.unsched ++ [tid] }
+  | .installAfter _ _ => p.raise .noTaskManager
+  | .installBare tid =>
+    match p.w.tm.ttime tid with
+    | none => p.raise .scheduleMissing
+    | some _ => { p with unsched := p.unsched ++ [tid] }
+  | .installRec tid iv off =>
+    let tm := p.w.tm.setRecurring tid iv off
+    let p := { p with w := { p.w with tm := tm } }
+    match tm.ival tid with
+    | none => p.raise .intervalUnset
+    | some i => if i = 0 then p.raise .intervalNotPositive else { p with unsched := p.unsched ++ [tid] }
+  | .suspend tid =>
+    if tid ∈ p.unsched then { p with unsched := p.unsched.erase tid } else p.raise .notInList
+  | .resume _ => p.raise .noManagerAttr
+  | .defer f => { p with w := { p.w with queue := p.w.queue ++ [f], subs := p.w.subs ++ [f.id] } }
+  | .tick d => { p with w := { p.w with now := p.w.now + d } }
+
+omit [Pump] in
+/-- the replay of one list entry: `task.install_task()` with a manager in place -/
+def World.replay (w : World) (tid : Nat) : World :=
+  if w.recurring tid then w.api (w.tm.installRecurring w.now tid none none)
+  else w.api (w.tm.installTask w.now tid none none)
+
+omit [Pump] in
+/-- `TaskManager()` for the first time: a fresh trigger, then
+    `for task in _unscheduled_tasks: task.install_task()` -/
+def Pre.mkManager (p : Pre) : World :=
+  p.unsched.foldl World.replay { p.w with tm := { p.w.tm with trig := false } }
 
 /-- one operation; the second component is the `delta` of `next` / the result
     code of the loops (0 = fuel ran out, 1 = ran to completion, 2 = `run` was
